@@ -3781,3 +3781,360 @@ func (c *Ctx) isAdjPrimitive(g *types.Func) bool {
 	}
 	return false
 }
+
+// ---------------------------------------------------------------------------------------------
+// WRITEBACK-ALL: a function that permutes the two parallel neighbour slices of a node through a
+// scratch slice (sortNeighbors) writes every slot back: the loop holding the stores
+// `cur.neigh[i] = ...` / `cur.br[i] = ...` starts at the first slot and runs to the end of what it
+// ranges over. A write-back that skips a slot leaves the old neighbour there while the sorted order
+// may have put another one at that position: one neighbour is duplicated and one is lost.
+func (c *Ctx) writebackAll(rule string, fi *FuncInfo, clause string) {
+	info := fi.Pkg.TypesInfo
+	key := fi.Name() + "/write-back-every-slot"
+	n, bad := 0, false
+	walkStack(fi.Decl.Body, func(m ast.Node, stack []ast.Node) bool {
+		as, ok := m.(*ast.AssignStmt)
+		if !ok || len(as.Lhs) != 1 {
+			return true
+		}
+		ix, ok := unparen(as.Lhs[0]).(*ast.IndexExpr)
+		if !ok {
+			return true
+		}
+		sel, ok := unparen(ix.X).(*ast.SelectorExpr)
+		if !ok || (sel.Sel.Name != "neigh" && sel.Sel.Name != "br") {
+			return true
+		}
+		var loop ast.Node
+		for i := len(stack) - 1; i >= 0 && loop == nil; i-- {
+			switch stack[i].(type) {
+			case *ast.RangeStmt, *ast.ForStmt:
+				loop = stack[i]
+			}
+		}
+		if loop == nil {
+			return true
+		}
+		n++
+		fs, isFor := loop.(*ast.ForStmt)
+		if !isFor {
+			return true
+		}
+		why := ""
+		if !isIndexLoop(info, fs) {
+			why = "stops on a condition other than the end of the slice (" + c.src(fs.Cond) + ")"
+		} else if init := fs.Init.(*ast.AssignStmt); len(init.Rhs) == 1 {
+			tv, okc := info.Types[init.Rhs[0]]
+			be, _ := unparen(fs.Cond).(*ast.BinaryExpr)
+			descending := be != nil && ((be.Op == token.GEQ || be.Op == token.GTR) && identObj(info, be.X) == identObj(info, init.Lhs[0]))
+			if !descending && !(okc && tv.Value != nil && tv.Value.String() == "0") {
+				why = "starts at " + c.src(init.Rhs[0]) + " instead of the first slot"
+			}
+		}
+		if why != "" && !bad {
+			bad = true
+			c.Violation(rule, key, fs.Pos(), "the loop writing the permuted neighbours back "+why+": a slot that is not written keeps its old neighbour, which the new order may have placed elsewhere").Clause = clause
+		}
+		return true
+	})
+	if n == 0 {
+		c.Undecided(rule, key, fi.Decl.Pos(), "no loop writing the neighbour slices back was found")
+		return
+	}
+	if !bad {
+		c.OK(rule, key, fi.Decl.Pos(), fmt.Sprintf("%d write-back stores, each in a loop over every slot", n)).Clause = clause
+	}
+}
+
+// ---------------------------------------------------------------------------------------------
+// ROOT-LIVE: a function of package tree that installs one of its *Node parameters as the root
+// (store into the root field, or SetRoot) does not first call anything that can delete nodes of
+// the tree (reaches delNode): the caller's node may be the one deleted (UnRoot deletes the degree-2
+// root), and the tree then hangs from a node without neighbours.
+func (c *Ctx) rootLive(rule string, funcs []*FuncInfo, clause string) int {
+	n := 0
+	isDel := func(f *types.Func) bool { return isRepoFunc(f, "tree", "Tree", "delNode") }
+	for _, fi := range funcs {
+		if fi.Decl.Body == nil {
+			continue
+		}
+		info := fi.Pkg.TypesInfo
+		params := map[types.Object]bool{}
+		for i := 0; i < fi.Obj.Type().(*types.Signature).Params().Len(); i++ {
+			if p := paramObj(info, fi.Decl, i); p != nil && isNodePtr(p.Type()) {
+				params[p] = true
+			}
+		}
+		if len(params) == 0 {
+			continue
+		}
+		var store ast.Node
+		var stored types.Object
+		ast.Inspect(fi.Decl.Body, func(m ast.Node) bool {
+			switch x := m.(type) {
+			case *ast.FuncLit:
+				return false
+			case *ast.AssignStmt:
+				for i, l := range x.Lhs {
+					if sel, ok := unparen(l).(*ast.SelectorExpr); ok && sel.Sel.Name == "root" && i < len(x.Rhs) {
+						if o := identObj(info, x.Rhs[i]); o != nil && params[o] && store == nil {
+							store, stored = x, o
+						}
+					}
+				}
+			case *ast.CallExpr:
+				if isRepoFunc(calleeOf(info, x), "tree", "Tree", "SetRoot") && len(x.Args) == 1 {
+					if o := identObj(info, x.Args[0]); o != nil && params[o] && store == nil {
+						store, stored = x, o
+					}
+				}
+			}
+			return true
+		})
+		if store == nil {
+			continue
+		}
+		n++
+		key := fi.Name() + "/new-root-still-in-tree"
+		var bad *ast.CallExpr
+		for _, call := range callsIn(fi.Decl.Body, false) {
+			if call.Pos() >= store.Pos() {
+				continue
+			}
+			g := calleeOf(info, call)
+			if g == nil || g == fi.Obj || !inRepo(g) {
+				continue
+			}
+			if c.reaches(g, isDel, 4, map[*types.Func]bool{}) {
+				bad = call
+				break
+			}
+		}
+		if bad != nil {
+			c.Violation(rule, key, bad.Pos(), "`"+c.src(bad)+"` can delete nodes of the tree and runs before the caller's node `"+stored.Name()+"` is installed as the root: when that node is the one deleted (the degree-2 root of a rooted tree) the tree hangs from a node without neighbours").Clause = clause
+		} else {
+			c.OK(rule, key, store.Pos(), "no node-deleting call before the caller's node becomes the root").Clause = clause
+		}
+	}
+	return n
+}
+
+func isNodePtr(t types.Type) bool {
+	p, ok := t.(*types.Pointer)
+	if !ok {
+		return false
+	}
+	nm, ok := p.Elem().(*types.Named)
+	return ok && nm.Obj().Name() == "Node" && nm.Obj().Pkg() != nil && strings.HasSuffix(nm.Obj().Pkg().Path(), "/tree")
+}
+
+// ---------------------------------------------------------------------------------------------
+// NAME-EXACT: tip and taxon names are compared byte for byte. In the tree library and the format
+// readers/writers a case-folding function (strings.ToLower/ToUpper/Title/ToTitle/EqualFold) is used
+// only to recognise keywords: its result is the tag of a switch whose cases are constants, or one
+// side of ==/!= against a constant, or (EqualFold) compared with a constant. A folded text used as a
+// map key, stored or returned makes two names that differ only by case the same taxon.
+func (c *Ctx) nameExact(rule string, funcs []*FuncInfo, clause string) (scanned, violations int) {
+	for _, fi := range funcs {
+		info := fi.Pkg.TypesInfo
+		isConst := func(e ast.Expr) bool {
+			tv, ok := info.Types[e]
+			return ok && tv.Value != nil
+		}
+		walkStack(fi.Decl.Body, func(m ast.Node, stack []ast.Node) bool {
+			call, ok := m.(*ast.CallExpr)
+			if !ok {
+				return true
+			}
+			fn := calleeOf(info, call)
+			if fn == nil || fn.Pkg() == nil || (fn.Pkg().Path() != "strings" && fn.Pkg().Path() != "bytes") {
+				return true
+			}
+			switch fn.Name() {
+			case "ToLower", "ToUpper", "Title", "ToTitle", "EqualFold":
+			default:
+				return true
+			}
+			scanned++
+			key := funcName(fi.Obj) + "/" + fn.Name() + "(" + c.src(call.Args[0]) + ")"
+			ok2 := false
+			if fn.Name() == "EqualFold" {
+				ok2 = len(call.Args) == 2 && (isConst(call.Args[0]) || isConst(call.Args[1]))
+			} else {
+				i := len(stack) - 1
+				for i >= 0 {
+					if _, isP := stack[i].(*ast.ParenExpr); !isP {
+						break
+					}
+					i--
+				}
+				if i >= 0 {
+					switch p := stack[i].(type) {
+					case *ast.SwitchStmt:
+						if p.Tag != nil && unparen(p.Tag) == ast.Expr(call) {
+							ok2 = true
+							for _, cc := range p.Body.List {
+								for _, e := range cc.(*ast.CaseClause).List {
+									if !isConst(e) {
+										ok2 = false
+									}
+								}
+							}
+						}
+					case *ast.BinaryExpr:
+						if p.Op == token.EQL || p.Op == token.NEQ {
+							other := p.X
+							if unparen(p.X) == ast.Expr(call) {
+								other = p.Y
+							}
+							ok2 = isConst(other)
+						}
+					case *ast.IndexExpr:
+						// look-up in a package-level keyword table whose keys are constants
+						if unparen(p.Index) == ast.Expr(call) {
+							if tv, isVar := info.Uses[rootIdent(p.X)].(*types.Var); isVar && tv.Parent() == fi.Pkg.Types.Scope() {
+								ok2 = constKeyedTable(fi.Pkg, tv)
+							}
+						}
+					}
+				}
+			}
+			if ok2 {
+				c.OK(rule, key, call.Pos(), "case folding only to recognise a constant keyword").Clause = clause
+			} else {
+				violations++
+				c.Violation(rule, key, call.Pos(), "`"+c.src(call)+"` folds the case of a text that is not merely compared with a constant keyword: names that differ only by case become the same taxon (or a name no longer matches itself)").Clause = clause
+			}
+			return true
+		})
+	}
+	return
+}
+
+// ---------------------------------------------------------------------------------------------
+// SIDES: a comparison whose results are reported per side ("only in the reference", "only in the
+// compared tree") never assigns to the parameter carrying one side a value built from the parameter
+// carrying the other side (a swap "because the count of common splits is symmetric" exchanges the
+// per-side results too).
+func (c *Ctx) sidesKept(rule string, fi *FuncInfo, clause string) {
+	info := fi.Pkg.TypesInfo
+	sig := fi.Obj.Type().(*types.Signature)
+	var params []types.Object
+	for i := 0; i < sig.Params().Len(); i++ {
+		if p := paramObj(info, fi.Decl, i); p != nil {
+			params = append(params, p)
+		}
+	}
+	key := fi.Name() + "/sides-not-exchanged"
+	var bad *ast.AssignStmt
+	pairs := 0
+	for i, a := range params {
+		for j, b := range params {
+			if i < j && types.Identical(a.Type(), b.Type()) {
+				pairs++
+			}
+		}
+	}
+	if pairs == 0 {
+		return
+	}
+	ast.Inspect(fi.Decl.Body, func(m ast.Node) bool {
+		as, ok := m.(*ast.AssignStmt)
+		if !ok || bad != nil {
+			return true
+		}
+		for i, l := range as.Lhs {
+			lo := identObj(info, l)
+			if lo == nil {
+				continue
+			}
+			isParam := false
+			for _, p := range params {
+				if p == lo {
+					isParam = true
+				}
+			}
+			if !isParam {
+				continue
+			}
+			rhs := as.Rhs
+			if len(as.Rhs) == len(as.Lhs) {
+				rhs = as.Rhs[i : i+1]
+			}
+			for _, r := range rhs {
+				ast.Inspect(r, func(q ast.Node) bool {
+					if id, ok := q.(*ast.Ident); ok {
+						if o := info.Uses[id]; o != nil && o != lo && types.Identical(o.Type(), lo.Type()) {
+							for _, p := range params {
+								if p == o {
+									bad = as
+								}
+							}
+						}
+					}
+					return true
+				})
+			}
+		}
+		return true
+	})
+	if bad != nil {
+		c.Violation(rule, key, bad.Pos(), "`"+c.src(bad)+"` gives the parameter of one side a value taken from the other side: the results reported per side (only in the first / only in the second) are exchanged or mixed").Clause = clause
+		return
+	}
+	c.OK(rule, key, fi.Decl.Pos(), "the parameters of the two sides are never assigned from one another").Clause = clause
+}
+
+func rootIdent(e ast.Expr) *ast.Ident {
+	id, _ := unparen(e).(*ast.Ident)
+	return id
+}
+
+// constKeyedTable: package-level variable v is initialised by a map literal all of whose keys are
+// constants, and nothing in the package stores into it.
+func constKeyedTable(p *packages.Package, v *types.Var) bool {
+	info := p.TypesInfo
+	good, found := true, false
+	for _, f := range p.Syntax {
+		ast.Inspect(f, func(n ast.Node) bool {
+			switch x := n.(type) {
+			case *ast.ValueSpec:
+				for i, nm := range x.Names {
+					if info.Defs[nm] == v {
+						found = true
+						if i >= len(x.Values) {
+							good = false
+							continue
+						}
+						cl, ok := unparen(x.Values[i]).(*ast.CompositeLit)
+						if !ok {
+							good = false
+							continue
+						}
+						for _, el := range cl.Elts {
+							kv, ok := el.(*ast.KeyValueExpr)
+							if !ok {
+								good = false
+								continue
+							}
+							if tv, ok := info.Types[kv.Key]; !ok || tv.Value == nil {
+								good = false
+							}
+						}
+					}
+				}
+			case *ast.AssignStmt:
+				for _, l := range x.Lhs {
+					if ix, ok := unparen(l).(*ast.IndexExpr); ok && info.Uses[rootIdent(ix.X)] == v {
+						good = false
+					}
+					if id := rootIdent(l); id != nil && info.Uses[id] == v {
+						good = false
+					}
+				}
+			}
+			return true
+		})
+	}
+	return good && found
+}
